@@ -12,16 +12,29 @@ TECHNIQUE = "model-based testing of operation histories (Hypothesis-generated op
 RULE = ("Hypothesis generates histories (construction from mapping / pairs / keywords, then 1-40 operations out of "
         "[] get/set/del, in, get, pop, setdefault, update (mapping, pairs, kwargs), copy, |, |=, ==, keys, sorted_keys, "
         "popitem, has_key) over a 16-key pool that contains case variants of the same names as str and bytes, for "
-        "CaselessDict, Parameters, Component, Event, Todo, Calendar, Timezone; plus an exhaustive sweep of all "
+        "CaselessDict, Parameters, Component, Event, Todo, Calendar, Timezone and harness-defined subclasses with their own / reassigned canonical_order (parents sorted first), including the reflected merge dict | d; plus an exhaustive sweep of all "
         "constructions from 1-3 pairs over a 6-key pool. After every step the real object is compared with a reference "
         "dict keyed by key.upper() (documented signatures: pop/get/setdefault default None): return values, exception "
         "types, stored keys upper-case, key order = first insertion, equality with plain dicts of any key case (both "
         "operand orders), copy independence, sorted_keys against an own reference. Non-trivial: the history touches "
         "one name through >= 2 spellings; distinct by hash.")
 ASSUMPTIONS = ["keys are str or UTF-8 bytes (the documented key types)", "values are opaque (ints/strs)"]
-REQUIRED_CLASSES = ["two-spellings", "bytes-key", "ctor:mapping", "ctor:pairs", "ctor:kwargs", "op:ior", "op:or", "op:eq"]
+REQUIRED_CLASSES = ["two-spellings", "bytes-key", "ctor:mapping", "ctor:pairs", "ctor:kwargs", "op:ior", "op:or", "op:ror", "op:eq", "kind:SubEvent", "kind:Dynamic"]
 
-KINDS = {"CaselessDict": CaselessDict, "Parameters": Parameters, "Component": Component, "Event": Event,
+class SubEvent(Event):
+    """user subclass with its own priority names (declared after the parent has possibly been sorted)"""
+    canonical_order = ("UID", "X-A", "DTSTART")
+
+
+class SubCaseless(CaselessDict):
+    canonical_order = ("B", "A")
+
+
+class SubSub(SubCaseless):
+    canonical_order = ("SUMMARY",)
+
+
+KINDS = {"SubEvent": SubEvent, "SubCaseless": SubCaseless, "SubSub": SubSub, "Dynamic": None, "CaselessDict": CaselessDict, "Parameters": Parameters, "Component": Component, "Event": Event,
          "Todo": Todo, "Calendar": Calendar, "Timezone": Timezone}
 POOL = ["a", "A", "b", "B", "summary", "Summary", "SUMMARY", "x-a", "X-A", "x-A", "dtstart", "DTSTART", "uid", "Version",
         "prodid", "tzid"]
@@ -110,6 +123,8 @@ def _check_state(real, model, step):
 
 def _run(case):
     cls = KINDS[case["kind"]]
+    if cls is None:   # a fresh subclass per case whose canonical_order may be reassigned by the history
+        cls = type("Dynamic", (CaselessDict,), {"canonical_order": ("A", "SUMMARY")})
     rctor = call(lambda: _build(cls, case["ctor"]))
     if rctor[0] == "exc":
         raise Mismatch("construct/raises", f"{case['ctor']!r}: {rctor[1]}")
@@ -241,7 +256,32 @@ def _run(case):
                     ch[k0] = "changed-value"
                     if call(lambda: real == ch) != ("ok", False):
                         raise Mismatch("eq/different-value-equal", f"step {n}: {ch!r}")
+        elif name == "set_canonical_order":
+            (order,) = args
+            if type(real).__name__ == "Dynamic":
+                type(real).canonical_order = tuple(order)
+        elif name == "ror":
+            (data,) = args
+            other = {dk(k): v for k, v in data}
+            r = call(lambda: other | real)
+            m2 = {}
+            for k, v in data:
+                m2[up(k)] = v
+            m2.update(model)
+            if r[0] == "exc":
+                raise Mismatch("or/reflected-raises", f"step {n}: {r[1]}")
+            if not isinstance(r[1], CaselessDict):
+                raise Mismatch("or/reflected-type", f"step {n}: {type(r[1]).__name__}")
+            _check_state(r[1], m2, f"{n}(dict | d)")
+            _check_state(real, model, f"{n}(dict | d changed the right operand)")
         elif name == "sorted_keys":
+            # parents first: an ordering cached per class must not leak into subclasses
+            for base in type(real).__mro__[1:]:
+                if isinstance(base, type) and issubclass(base, CaselessDict) and base is not CaselessDict:
+                    try:
+                        base(model).sorted_keys()
+                    except Exception:
+                        pass
             want = ref_sorted_keys(list(model.keys()), type(real).canonical_order)
             r = call(lambda: list(real.sorted_keys()))
             if r != ("ok", want):
@@ -314,7 +354,9 @@ op = st.one_of(
     st.tuples(st.just("setdefault"), key, st.one_of(st.none(), val)),
     st.tuples(st.just("update_map"), upairs), st.tuples(st.just("update_pairs"), pairs), st.tuples(st.just("update_kw"), kwpairs),
     st.tuples(st.just("update_map_kw"), upairs, kwpairs),
-    st.tuples(st.just("copy")), st.tuples(st.just("or"), upairs), st.tuples(st.just("ior"), upairs),
+    st.tuples(st.just("copy")), st.tuples(st.just("or"), upairs), st.tuples(st.just("ior"), upairs), st.tuples(st.just("ror"), upairs),
+    st.tuples(st.just("set_canonical_order"), st.lists(st.sampled_from(["A", "B", "SUMMARY", "UID", "X-A"]), max_size=3, unique=True)),
+    st.tuples(st.just("sorted_keys")),
     st.tuples(st.just("eq"), st.sampled_from(["upper", "lower", "title"])), st.tuples(st.just("sorted_keys")),
     st.tuples(st.just("popitem")), st.tuples(st.just("clear")),
 ).map(list)
